@@ -120,7 +120,7 @@ pub fn parse_compressed_name(octets: &[u8], start: usize) -> Result<(Box<Name>, 
         let mut index = chunk_start;
 
         while !finished_with_chunk {
-            let len = octets[index];
+            let len = *octets.get(index).ok_or(Error::UnexpectedEom)?;
             if len & 0xc0 == 0xc0 {
                 next_chunk = Some(parse_pointer(octets, chunk_start, index)? as usize);
                 index += 2;
